@@ -268,6 +268,66 @@ TTOL_FLOAT = [0.05, 0.05, 1e-2, 1e-3, 0.2, 0.0, 1e-12, 0.45, 0.5, 0.6, 0.9, 0.9,
 STOL_EXACT = [1e-3, 1e-3, 1e-3, 0.0, 1e-6, 2**-10, 1e-2, 2**-5, 0.125, 0.3]
 
 
+PLACEMENTS = ["contained", "contained", "low", "high", "high", "both", "disjoint"]
+SHRINKS = [1, 1, 2, 2, 3, 4, 5, 8, 11, 16, 32, 64]
+
+
+def place_axis(rng, cls, Ls, Nd):
+    """offset (in overview pixels) of destination pixel 0 for a placement class; Ls = source length in overview pixels"""
+    if cls == "contained":
+        return rng.randint(0, max(0, Ls - Nd))
+    if cls == "low":
+        return -rng.randint(1, max(1, Nd - 1))
+    if cls == "high":
+        return Ls - Nd + rng.randint(1, max(1, Nd - 1))
+    if cls == "both":
+        return -rng.randint(1, max(1, Nd - Ls - 1))
+    return rng.choice([-Nd, -Nd - 2, Ls, Ls + 3])
+
+
+def band_dev(rng, t, exact=False):
+    """relative deviation d of a scale k(1+d): inside the band |d|<t, just inside / outside each band edge, at the band
+    edge of the INVERSE scale (1/(1±t): s and 1/s are not symmetric), clearly outside, exact"""
+    cls = rng.choice(["in", "in", "lo-in", "lo-in", "lo-out", "hi-in", "hi-out", "inv-lo", "inv-hi", "out", "exact"])
+    if t <= 0:
+        return rng.choice([0, 0, 2.0**-20, -(2.0**-20)]), cls
+    tiny = rng.choice([t * t / 2, t * 2.0**-10] if exact else [t * t * 0.5, t * t * 0.9, t * 1e-3, 2.3e-16])
+    sg = rng.choice([1, -1])
+    d = {"in": t * (rng.choice([0.25, 0.5, 0.75]) if exact else rng.uniform(0.05, 0.9)) * sg, "lo-in": -t + tiny, "lo-out": -t - tiny,
+         "hi-in": t - tiny, "hi-out": t + tiny,
+         "inv-lo": (-t + t * t + sg * tiny) if exact else (1 / (1 + t) - 1 + sg * tiny * 0.5),
+         "inv-hi": (t + t * t + sg * tiny) if exact else (1 / (1 - t) - 1 + sg * tiny * 0.5),
+         "out": t * rng.choice([1.5, 2.5, 6]) * sg, "exact": 0}[cls]
+    return d, cls
+
+
+def tol_case(rng, exact=False):
+    """scale class x placement class x read-shrink x shift residue x caller tolerances, for plans that may paste.
+    Returns (sshape, dshape, M (dst->src pixel transform), stol, ttol, tag).  `exact`: every number is a short dyadic."""
+    stol = rng.choice([2.0**-10, 2.0**-10, 2.0**-7, 2.0**-5] if exact else [1e-2, 1e-3, 1e-3, 1e-4, 1e-6])
+    ttol = rng.choice([2.0**-4, 2.0**-4, 2.0**-2, 0.5 - 2.0**-10, 0.05, 0.75] if exact else [0.05, 0.05, 1e-2, 1e-3, 0.125, 0.2, 0.3, 0.5, 0.9])
+    k = rng.choice([1, 1, 2, 4, 8, 16, 32, 64] if exact else SHRINKS)
+    dx, cx = band_dev(rng, stol, exact)
+    dy_, cy = (dx, cx) if rng.random() < 0.6 else band_dev(rng, stol, exact)
+    px_, py_ = rng.choice(PLACEMENTS), rng.choice(PLACEMENTS)
+    Ls = (rng.randint(4, 30), rng.randint(4, 30))
+    Nd = tuple((L + rng.randint(2, 6)) if p_ == "both" else rng.randint(2, max(2, L)) for L, p_ in zip(Ls, (py_, px_)))
+    Ns = tuple(k * L - rng.randint(0, k - 1) for L in Ls)
+    oy, ox = place_axis(rng, py_, Ls[0], Nd[0]), place_axis(rng, px_, Ls[1], Nd[1])
+    if exact:
+        rt = rng.choice([0, ttol * (1 - 2.0**-4), ttol / 2, ttol * (1 + 2.0**-4), -ttol * (1 - 2.0**-4), 2.0**-5]) if ttol < 0.5 \
+            else rng.choice([0, 0.25, -0.375, 0.5 - 2.0**-6])
+    else:
+        rt = min(ttol, 0.499) * rng.choice([0, 0.5, 0.8, 0.9, 0.95, 0.999, 1.001, 1.1, 3]) * rng.choice([1, -1])
+        if ttol > 0.5 and rng.random() < 0.7:
+            rt = rng.uniform(-0.5, 0.5)
+    rty = rt if rng.random() < 0.5 else 0
+    sg = (rng.choice([1, 1, -1]), rng.choice([1, 1, -1]))
+    M = Affine(k * (1 + dx) * sg[0], 0, k * (ox + rt) + (k * Nd[1] if sg[0] < 0 else 0),
+               0, k * (1 + dy_) * sg[1], k * (oy + rty) + (k * Nd[0] if sg[1] < 0 else 0))
+    return Ns, Nd, M, stol, ttol, f"k{k}|{cx}|{px_}"
+
+
 def gen_src_affine(rng):
     sx = rng.choice([1, 1, 2, 0.5, 4, 0.25, 8]) * rng.choice([1, 1, -1])
     sy = rng.choice([1, 1, 2, 0.5, 4, 0.25, 8]) * rng.choice([-1, -1, 1])
@@ -615,6 +675,9 @@ def run(R: Run):
             kind += "-far"
         ttol = rng.choice([0.05, 0.05, 2**-5, 0.26] + TTOL_EXACT)
         stol = 2**-10 if kind == "edge" or rng.random() < 0.3 else rng.choice([1e-3, 1e-3, 1e-2, 1e-6, 2**-5, 0.125])
+        if rng.random() < 0.4:  # dyadic scale class x placement class x read-shrink x residue x tolerances
+            sshape, dshape, M, stol, ttol, tg = tol_case(rng, exact=True)
+            kind = "tolx|" + tg
         src, dst = gb(sshape, Affine.identity()), gb(dshape, M)
         res = []
 
@@ -803,6 +866,13 @@ def run(R: Run):
         S = gen_src_affine(rng) if rng.random() < 0.4 else (float_src_affine(rng, rng.choice(RES_CHOICES)) if rng.random() < 0.6
                                                           else Affine.identity())
         D = S * Affine((k + dlt) * sg[0], 0, tx, 0, (k + dlt2) * sg[1], ty)
+        tctag = ""
+        if rng.random() < 0.55:  # scale class x placement class x read-shrink (up to 64) x top-of-band residues
+            sshape, dshape, Mtc, stol, ttol, tctag = tol_case(rng)
+            D = S * Mtc
+            if rng.random() < 0.8:
+                pad_t, al_t = rng.choice([None, None, 0]), rng.choice([None, None, 0])
+            tctag = "|" + tctag
         src, dst = gb(sshape, S), gb(dshape, D)
         case = {"fn": "compute_reproject_roi", "src_shape": sshape, "dst_shape": dshape, "src_affine": list(S)[:6],
                 "dst_affine": list(D)[:6], "stol": stol, "ttol": ttol, "padding": pad_t, "align": al_t, "crs": CRS0}
@@ -812,7 +882,7 @@ def run(R: Run):
             R.oracle(False, "plan-raises", case, f"compute_reproject_roi raised {type(e).__name__}: {e}", sig="plan|raises")
             continue
         A6 = fmul(finv(faff(S)), faff(D))
-        oracle_linear(R, case, sshape, dshape, A6, r, pad_t, al_t, 1e-6, f"float-tol-{stol:g}" + ("|paste" if r.paste_ok else ""),
+        oracle_linear(R, case, sshape, dshape, A6, r, pad_t, al_t, 1e-6, f"float-tol-{stol:g}{tctag}" + ("|paste" if r.paste_ok else ""),
                       st_scale=(float(abs(A6[0])), float(abs(A6[4]))))
         if r.paste_ok:  # two-sided: source region = read_shrink x destination region, and the scale is within the stated stol
             rs = int(r.read_shrink)
